@@ -416,6 +416,9 @@ public:
             } else if (o.kind == K_DIE_SIGNAL || o.kind == K_DIE_EXIT || o.kind == K_DIE_ABORT) {     // the child dies inside a plugin action (separate-process mode)
                 pushEv(E_OP, t, phase, (int)i, pidx);
                 if (PS.inChild) { if (o.kind == K_DIE_SIGNAL) { fflush(0); signal((int)o.a, SIG_DFL); sigset_t one; sigemptyset(&one); sigaddset(&one, (int)o.a); sigprocmask(SIG_UNBLOCK, &one, 0); raise((int)o.a); } else if (o.kind == K_DIE_EXIT) _exit((int)o.a); else { signal(SIGABRT, SIG_DFL); throwOrAbort(o.b == 1); } }
+            } else if (o.kind == K_PLUGIN_REMOVE && phase == PH_PRE) {      // a plugin's pre action takes a plugin out of the chain that sits behind it (was installed earlier): that one sees nothing of this test any more
+                pushEv(E_OP, t, phase, (int)i, pidx);
+                size_t q = (size_t)o.a; if (q < RS.pluginObjs.size() && (int)q != pidx) { if (RS.pluginInstalled[q]) fired("plugin_removed_by_a_pre_action"); RS.reg->removePluginByName(RS.pluginObjs[q]->getName()); RS.pluginInstalled[q] = 0; }
             } else pushEv(E_OP, t, phase, (int)i, pidx);
         }
     }
